@@ -59,7 +59,7 @@ type KnownFinding struct {
 }
 
 func loadKnown() []KnownFinding {
-	b, err := os.ReadFile("/verif/known_findings.json")
+	b, err := os.ReadFile(verifRoot + "/known_findings.json")
 	if err != nil {
 		return nil
 	}
@@ -123,7 +123,7 @@ var (
 	testBinErr  error
 )
 
-var testBin = envOr("SYMGO_TESTBIN", "/verif/bin/harness.test")
+var testBin = envOr("SYMGO_TESTBIN", verifRoot+"/bin/harness.test")
 
 // instrument inserts verifHook calls before the synchronisation statements of a fox source file
 // (native schedule replay; the instrumented copy only exists as a build overlay).
@@ -285,7 +285,7 @@ func cmdRun(args []string) int {
 		fatal(2, "unknown property %q", *propID)
 	}
 	t0 := time.Now()
-	evPath := envOr("SYMGO_EVIDENCE_DIR", "/verif/evidence") + "/" + spec.ID + ".json"
+	evPath := envOr("SYMGO_EVIDENCE_DIR", verifRoot+"/evidence") + "/" + spec.ID + ".json"
 	os.Remove(evPath)
 
 	p, err := loadProgram()
@@ -519,7 +519,7 @@ func cmdRun(args []string) int {
 		}
 	}
 	// replay: known findings once each (must still reproduce to be announced), fresh ones all (cap)
-	replayDir := envOr("SYMGO_REPLAY_DIR", "/verif/replays")
+	replayDir := envOr("SYMGO_REPLAY_DIR", verifRoot+"/replays")
 	validated := 0
 	exit := 0
 	var report []string
@@ -723,7 +723,7 @@ func cmdRun(args []string) int {
 	}
 	if paths > 0 {
 		b, _ := json.MarshalIndent(ev, "", " ")
-		os.MkdirAll(envOr("SYMGO_EVIDENCE_DIR", "/verif/evidence"), 0o755)
+		os.MkdirAll(envOr("SYMGO_EVIDENCE_DIR", verifRoot+"/evidence"), 0o755)
 		os.WriteFile(evPath, b, 0o644)
 	}
 
@@ -744,7 +744,7 @@ var (
 	raceBinErr  error
 )
 
-var raceBin = envOr("SYMGO_TESTBIN", "/verif/bin/harness.test") + ".race"
+var raceBin = envOr("SYMGO_TESTBIN", verifRoot+"/bin/harness.test") + ".race"
 
 func buildRaceBinary() error {
 	raceBinOnce.Do(func() {
